@@ -29,11 +29,16 @@ const B64S: [&str; 3] = ["AAAA", "AQID", "_-8A"];
 
 fn ns_name(n: u64) -> String { match n { 0 => "".into(), 1 => "sys".into(), k => format!("n{}", k) } }
 fn ns_index(s: &str) -> u64 { match s { "" => 0, "sys" => 1, k => k[1..].parse().unwrap() } }
-fn qual(ns: u64, e: u64) -> String { if ns == 0 { format!("E{}", e) } else { format!("{}.E{}", ns_name(ns), e) } }
-fn ent_index(q: &str) -> u64 { let l = q.rsplit('.').next().unwrap(); l[1..].parse().unwrap() }
-fn field_name(f: u64) -> String { if f >= 100 { SYS_FIELDS[(f - 100) as usize].to_string() } else { format!("f{}", f) } }
+/// entity k is "E<k>", entity 1000+k the same name in lower case; field k is "f<k>", field 500+k "F<k>";
+/// 1000.. are the system fields
+const SYSF: u64 = 1000;
+fn ent_local(e: u64) -> String { if e >= 1000 { format!("e{}", e - 1000) } else { format!("E{}", e) } }
+fn ent_local_index(l: &str) -> u64 { let k: u64 = l[1..].parse().unwrap(); if l.starts_with('e') { 1000 + k } else { k } }
+fn qual(ns: u64, e: u64) -> String { if ns == 0 { ent_local(e) } else { format!("{}.{}", ns_name(ns), ent_local(e)) } }
+fn ent_index(q: &str) -> u64 { ent_local_index(q.rsplit('.').next().unwrap()) }
+fn field_name(f: u64) -> String { if f >= SYSF { SYS_FIELDS[(f - SYSF) as usize].to_string() } else if f >= 500 { format!("F{}", f - 500) } else { format!("f{}", f) } }
 fn field_index(s: &str) -> u64 {
-    if let Some(p) = SYS_FIELDS.iter().position(|x| *x == s) { 100 + p as u64 } else { s[1..].parse().unwrap() }
+    if let Some(p) = SYS_FIELDS.iter().position(|x| *x == s) { SYSF + p as u64 } else { let k: u64 = s[1..].parse().unwrap(); if s.starts_with('F') { 500 + k } else { k } }
 }
 fn is_ref(t: &Ty) -> bool { matches!(t, Ty::Ent(..) | Ty::Arr(..)) }
 
@@ -69,7 +74,7 @@ fn render(v: &Ver) -> String {
         s.push_str(&format!("{} {{\n", ns_name(*ns)));
         for e in eds {
             if e.depr { s.push_str("  @deprecated "); } else { s.push_str("  "); }
-            s.push_str(&format!("E{}", e.name));
+            s.push_str(&ent_local(e.name));
             if !e.ft { s.push_str("(no_full_text_index)"); }
             s.push_str(" {\n");
             let mut entries: Vec<String> = e.fields.iter().map(render_field).collect();
@@ -111,9 +116,9 @@ struct OM { tag: u64, nss: Vec<ONs> }
 
 fn ref_target(s: &str) -> (u64, u64) {
     let parts: Vec<&str> = s.split('.').collect();
-    if parts.len() == 2 { (ns_index(parts[0]), parts[1][1..].parse().unwrap()) } else { (0, s[1..].parse().unwrap()) }
+    if parts.len() == 2 { (ns_index(parts[0]), ent_local_index(parts[1])) } else { (0, ent_local_index(s)) }
 }
-fn idx_code(fields: &[u64]) -> u64 { fields.iter().fold(0u64, |acc, f| acc * 128 + f + 1) }
+fn idx_code(fields: &[u64]) -> u64 { fields.iter().fold(0u64, |acc, f| acc * 2048 + f + 1) }
 fn obs_index_map(v: &Value) -> Vec<u64> {
     let mut r: Vec<u64> = v.as_object().unwrap().values().map(|ix| {
         let fs: Vec<u64> = ix["fields"].as_array().unwrap().iter().map(|f| field_index(f["name"].as_str().unwrap())).collect();
@@ -311,7 +316,7 @@ fn gen_field(rng: &mut Rng, name: u64, ents: &[(u64, u64)], readable: bool) -> F
 }
 fn indexable(e: &ED) -> Vec<u64> {
     let mut v: Vec<u64> = e.fields.iter().filter(|f| !is_ref(&f.ty) && f.ty != Ty::Json).map(|f| f.name).collect();
-    v.extend_from_slice(&[100, 102, 103, 109]);
+    v.extend_from_slice(&[SYSF, SYSF + 2, SYSF + 3, SYSF + 9]);
     v
 }
 fn gen_index(rng: &mut Rng, e: &ED) -> Vec<u64> {
@@ -403,9 +408,9 @@ fn invalid_edit(rng: &mut Rng, v: &mut Ver, sys: bool) -> &'static str {
         12 => { let e = &mut v.blocks[b].1[i]; let f = e.fields[0].clone(); e.fields.push(f); "duplicate_field" }
         13 => { let e = &mut v.blocks[b].1[i]; if let Some(n) = free_field_name(e) { e.fields.push(FD { name: n, ty: Ty::Ent(v_unknown_ns(sys), 9), default: None, nullable: true, depr: false }); return "unknown_reference"; } "none" }
         14 => { let e = gen_entity(rng, 1, &[]); v.blocks.push((if sys { 2 } else { 1 }, vec![e])); "foreign_namespace" }
-        15 => { let e = &mut v.blocks[b].1[i]; let bad = e.fields.iter().find(|f| is_ref(&f.ty) || f.ty == Ty::Json).map(|f| f.name).unwrap_or(50); e.idx.push(vec![bad]); "bad_index" }
-        16 => { let e = &mut v.blocks[b].1[i]; if let Some(ix) = e.idx.first().cloned() { e.idx.push(ix); return "duplicate_index"; } let ix = vec![100]; e.idx.push(ix.clone()); e.idx.push(ix); "duplicate_index" }
-        17 => { let e = &mut v.blocks[b].1[i]; let n = 100 + rng.below(6); if !e.fields.iter().any(|f| f.name == n) { e.fields.push(FD { name: n, ty: Ty::Int, default: None, nullable: true, depr: false }); return "system_field_name"; } "none" }
+        15 => { let e = &mut v.blocks[b].1[i]; let bad = e.fields.iter().find(|f| is_ref(&f.ty) || f.ty == Ty::Json).map(|f| f.name).unwrap_or(49); e.idx.push(vec![bad]); "bad_index" }
+        16 => { let e = &mut v.blocks[b].1[i]; if let Some(ix) = e.idx.first().cloned() { e.idx.push(ix); return "duplicate_index"; } let ix = vec![SYSF]; e.idx.push(ix.clone()); e.idx.push(ix); "duplicate_index" }
+        17 => { let e = &mut v.blocks[b].1[i]; let n = SYSF + rng.below(6); if !e.fields.iter().any(|f| f.name == n) { e.fields.push(FD { name: n, ty: Ty::Int, default: None, nullable: true, depr: false }); return "system_field_name"; } "none" }
         _ => { v.blocks.insert(0, (6, vec![ED { name: 1, depr: false, ft: true, fields: vec![FD { name: 1, ty: Ty::Int, default: None, nullable: true, depr: false }], idx: vec![] }])); "namespace_in_front" }
     }
 }
@@ -498,13 +503,13 @@ fn directed_bare() -> Vec<(&'static str, Vec<(bool, Ver)>)> {
     out.push(("directed_system_namespace", vec![(true, s1.clone()), (false, u1.clone()), (false, bad_u), (true, bad_s), (true, s1.clone()), (true, s2), (false, u1.clone()), (true, u1.clone()), (false, s1)]));
     out.push(("directed_user_before_system", vec![(false, u1.clone()), (true, ver(vec![(1, vec![ed(1, vec![s(1)])])])), (false, u1)]));
     // indexes
-    let mut i1 = ver(vec![(2, vec![ed(1, vec![s(1), fd(2, Ty::Int, None, true), fd(3, Ty::Json, None, true)])])]); i1.blocks[0].1[0].idx = vec![vec![1], vec![100, 2]];
+    let mut i1 = ver(vec![(2, vec![ed(1, vec![s(1), fd(2, Ty::Int, None, true), fd(3, Ty::Json, None, true)])])]); i1.blocks[0].1[0].idx = vec![vec![1], vec![SYSF, 2]];
     let mut i2 = i1.clone(); i2.blocks[0].1[0].idx = vec![vec![2, 1]];
     let mut i3 = i1.clone(); i3.blocks[0].1[0].idx = vec![vec![3]];
     let mut i4 = i1.clone(); i4.blocks[0].1[0].idx = vec![vec![1], vec![1]];
     let mut i5 = i1.clone(); i5.blocks[0].1[0].idx = vec![vec![1, 1]];
     let mut i6 = i1.clone(); i6.blocks[0].1[0].idx = vec![vec![7]];
-    let mut i7 = i1.clone(); i7.blocks[0].1[0].idx = vec![vec![104]];
+    let mut i7 = i1.clone(); i7.blocks[0].1[0].idx = vec![vec![SYSF + 4]];
     out.push(("directed_indexes", vec![(false, i1.clone()), (false, i2), (false, i3), (false, i4), (false, i5), (false, i6), (false, i7), (false, i1)]));
     // compatibility rules one by one
     let c1 = ver(vec![(2, vec![ed(1, vec![s(1), sn(2), fd(3, Ty::Ent(2, 2), None, true)]), ed(2, vec![s(1)])])]);
@@ -517,7 +522,7 @@ fn directed_bare() -> Vec<(&'static str, Vec<(bool, Ver)>)> {
     let mut r7 = c1.clone(); r7.blocks[0].1[0].fields[2] = sn(3); r7.blocks[0].1.remove(1);  // missing entity (+ retype)
     let r8 = ver(vec![(3, vec![ed(1, vec![s(1)])])]);                                // missing namespace
     let mut r9 = c1.clone(); r9.blocks[0].1[0].fields.push(s(4));                    // new field without default
-    let mut r10 = c1.clone(); r10.blocks[0].1[0].fields.push(fd(100, Ty::Int, None, true));  // system field name
+    let mut r10 = c1.clone(); r10.blocks[0].1[0].fields.push(fd(SYSF, Ty::Int, None, true));  // system field name
     let mut r11 = c1.clone(); r11.blocks[0].1[0].fields.push(fd(4, Ty::Ent(2, 9), None, true));  // unknown entity
     for (k, r) in [r1, r2, r3, r4, r5, r6, r7, r8, r9, r10, r11].into_iter().enumerate() {
         let name: &'static str = ["directed_rule_non_null_no_default", "directed_rule_non_null_default", "directed_rule_reference_non_null", "directed_rule_retype",
